@@ -7,7 +7,7 @@ set -u
 SRC="$1"; SID="$2"; PID="$3"; WK="$4"
 if [ -f /verif/seeded/$SID/meta.json ] && grep -q '"confirmed"' /verif/seeded/$SID/meta.json; then
   # already confirmed earlier: only (re-)try the check
-  [ -d /tmp/lab/w$WK/verif ] || /verif/tools/lab.sh w$WK >/dev/null
+  if [ -d /tmp/lab/w$WK/verif ]; then /verif/tools/lab.sh w$WK sync; else /verif/tools/lab.sh w$WK >/dev/null; fi
   RES=$(env -u CARGO_TARGET_DIR /verif/tools/lab.sh w$WK try "/verif/seeded/$SID/patch.diff" "$PID" | tr '\n' ' ' | sed 's/KNOWN-FINDING[^V\[]*//g' | cut -c1-400)
   echo "$SID retry check: $RES" >> /verif/tmp/seedres.txt
   exit 0
@@ -41,7 +41,7 @@ PY
 fi
 RES="not-tried"
 if [ $OK = yes ]; then
-  [ -d /tmp/lab/w$WK/verif ] || /verif/tools/lab.sh w$WK >/dev/null
+  if [ -d /tmp/lab/w$WK/verif ]; then /verif/tools/lab.sh w$WK sync; else /verif/tools/lab.sh w$WK >/dev/null; fi
   RES=$(env -u CARGO_TARGET_DIR /verif/tools/lab.sh w$WK try "$SRC/patch.diff" "$PID" | tr '\n' ' ' | sed 's/KNOWN-FINDING[^V\[]*//g' | cut -c1-400)
 fi
 echo "$SID confirmed=$OK clean=$CLEAN mut=$MUT suite=[$SUITE] check: $RES" >> /verif/tmp/seedres.txt
